@@ -5,7 +5,7 @@ from gen_http import Response, Header, Chunk
 
 HARNESS = "rx_driver"
 LEAN_MODULES = ["ViaProofs.C07"]
-LEMMA_MODULES = ["ViaProofs.Frag.Lines", "ViaProofs.Frag.Headers", "ViaProofs.Frag.Compose", "ViaProofs.C05"]
+LEMMA_MODULES = ['ViaProofs.Frag.Lines', 'ViaProofs.Frag.Headers', 'ViaProofs.Frag.Compose', 'ViaProofs.C05', 'ViaProofs.Trans.SL', 'ViaProofs.Trans.FL', 'ViaProofs.Trans.CH']
 REQUIRED_THEOREMS = ["Via.C07_frag", "Via.RS.receive_head_seq", "Via.RS.receive_head_fail_seq"]
 LEVEL = "proof"
 RULE = ("well-formed responses framed by Content-Length or chunked coding (hand-written feature set + random within the limits) "
@@ -13,7 +13,7 @@ RULE = ("well-formed responses framed by Content-Length or chunked coding (hand-
         "runs, header-name byte, Content-Length syntax, chunk size syntax, chunk terminator, bare LF under strict) x partitions "
         "(whole, byte-wise, line-wise, every single cut, every pair of cuts for short messages, structural, random) x response "
         "configurations x containers; expectation by construction; non-trivial = more than one read")
-TRUSTED_BASE = ["Lean 4.33 kernel", "axioms: propext, Classical.choice, Quot.sound at most",
+TRUSTED_BASE = ["tools/cxx2lean.py (translator of the parse_char state machines of SL, FL, CH from the current C++ into Lean; the model is proved equal to the translation in ViaProofs/Trans)", "Lean 4.33 kernel", "axioms: propext, Classical.choice, Quot.sound at most",
                 "rx_driver (real response_receiver driven like http_client::receive_handler) + via_model driver"]
 ASSUMPTIONS = ["a response without Content-Length and without chunked coding (body delimited by connection close) is outside the "
                "property; it is covered by the C05 safety checks only"]
@@ -102,6 +102,32 @@ def generate(tier, rng):
         for mode in ("whole", "bytes", "lines", "struct", "random"):
             for parts in G.partitions(data, rng, mode, k=3):
                 add(cfgname, rng.choice("sv"), data, resp.expected(), parts, ["random", mode, cfgname])
+    # several responses one after the other on one connection (keep-alive): each must be delivered once and intact
+    # wherever the reads fall — in particular when the read that completes one body also carries the start of the next
+    for si in range(60 if quick else 1500):
+        cfgname = rng.choice(list(G.RESP_CFGS))
+        cfg = G.RESP_CFGS[cfgname]
+        rs = [G.rand_response(rng, cfg, small=True, framing=rng.choice(["cl", "cl", "chunked", "cl0"])) for _ in range(rng.range(2, 3))]
+        if any(r is None for r in rs):
+            continue
+        datas = [r.render() for r in rs]
+        data = b"".join(datas)
+        exp = []
+        for r in rs:
+            exp += r.expected()
+        cont = rng.choice("sv")
+        partss = []
+        for mode in ("whole", "bytes", "lines", "struct", "random"):
+            partss += list(G.partitions(data, rng, mode, k=3))
+        # reads that end inside a body and then run over the message boundary
+        b0 = len(datas[0])
+        for back in (1, 2, 5):
+            for fwd in (1, 3, len(datas[1]) // 2):
+                c1, c2 = b0 - back, b0 + fwd
+                if 0 < c1 < c2 < len(data):
+                    partss.append([data[:c1], data[c1:c2], data[c2:]])
+        for parts in partss:
+            add(cfgname, cont, data, exp, [p for p in parts if p], ["sequence", cfgname])
     for cfgname in G.RESP_CFGS:
         cfg = G.RESP_CFGS[cfgname]
         for (cls, data) in malformed(cfg, rng):
